@@ -239,6 +239,18 @@ def correspond(ctx, scale):
                 if not ok and first_init:
                     dist['kmeans_first_call_exceptions'] += 1
                     ok = True
+                    # the permitted exception is the k-means initialisation ALONE: the state right after it is the k-means result (integer usage counts
+                    # adding up to the tokens seen, running sums = code x count), not that result pushed through an EMA step or dead-code expiry
+                    for kname, t_cs in after.items():
+                        if kname.endswith('cluster_size') and kname.replace('cluster_size', 'embed') in after and t_cs.dtype.is_floating_point:
+                            t_e, t_a = after[kname.replace('cluster_size', 'embed')], after.get(kname.replace('cluster_size', 'embed_avg'))
+                            ntok = x.numel() // x.shape[-1] if not f['image'] and not f.get('mkx') else None
+                            integral = bool(torch.equal(t_cs, t_cs.round()))
+                            sums_ok = t_a is None or bool(torch.allclose(t_a, t_e * t_cs[..., None], atol=1e-4, rtol=1e-4))
+                            if not integral or not sums_ok:
+                                failures.append({'key': f'{f["name"]}:{op}:first-call-more-than-kmeans', 'what': f'{f["name"]}: the initialising pure call "{op}" left {kname} '
+                                                 f'{"non-integral" if not integral else "inconsistent with embed_avg = embed x count"}: more than the k-means initialisation ran (history {trace})',
+                                                 'case': dict(name=f['name'], ops=trace)})
                 if not ok:
                     failures.append({'key': f'{f["name"]}:{op}:state-changed:{why.split(":")[1] if ":" in why else why}',
                                      'what': f'{f["name"]}: persistent state changed by a pure operation "{op}" after history {trace[:-1]}: {why}',
